@@ -231,7 +231,17 @@ impl RoutingTable {
 
     /// Get `limit` closest peers to `target` from the k-buckets.
     pub fn closest<K: Clone>(&mut self, target: &Key<K>, limit: usize) -> Vec<KademliaPeer> {
+        // `ClosestBucketsIter` yields bucket 0 a second time when it switches from zooming in to
+        // zooming out; skip the repeat so that the peers of bucket 0 are not returned twice.
+        let mut bucket_zero_visited = false;
+
         ClosestBucketsIter::new(self.local_key.distance(&target))
+            .filter(move |index| {
+                if index.get() != 0 {
+                    return true;
+                }
+                !std::mem::replace(&mut bucket_zero_visited, true)
+            })
             .flat_map(|index| self.buckets[index.get()].closest_iter(target))
             .take(limit)
             .cloned()
